@@ -505,6 +505,10 @@ func gen(seed uint64, tier string) {
 			fmt.Fprintf(out, "area %s %s\ncent %s %s\nmcent %s %s\n", lm, G(b), lm, G(b), lm, G(geom.MultiPolygon{b}))
 		}
 	}
+	for _, e := range []int{-600, -400, 400, 600} {
+		b := toPoly(scaleRings([]ring{respell(big, spell{closed: true}), respell(hole, spell{closed: true, rev: true})}, e))
+		fmt.Fprintf(out, "cent g %s\nmcent g %s\n", G(b), G(geom.MultiPolygon{b}))
+	}
 	for _, mp := range []geom.MultiPolygon{{}, {{}}, {{sqcwC}}, {{sqC}, {respell(hole, spell{closed: true, rev: true})}},
 		{{sqcwC}, {respell(big, spell{closed: true}), respell(hole, spell{closed: true})}}} {
 		fmt.Fprintf(out, "marea g %s\nmcent g %s\n", G(mp), G(mp))
@@ -564,20 +568,32 @@ func gen(seed uint64, tier string) {
 		orbit(r, base, mo, func(q []ring, ss []spell) { emitPoly("g", q, ss) })
 		// ring order permuted (shell not first): outside ValidPoly as written, so these lines only tie
 		// the model to the code (hole detection must not depend on the ring's position in the slice)
-		if len(base) >= 3 && i%2 == 0 {
+		if len(base) >= 2 && i%2 == 0 {
 			for rep := 0; rep < 2; rep++ {
 				k := 1 + r.Intn(len(base)-1)
 				q := make([]ring, 0, len(base))
 				for j := range base {
-					q = append(q, respell(base[(j+k)%len(base)], spell{rev: r.Bool(), rot: r.Intn(3), closed: r.Bool()}))
+					q = append(q, respell(base[(j+k)%len(base)], spell{rev: r.Bool(), rot: r.Intn(3), closed: rep == 0 || r.Bool()}))
 				}
-				fmt.Fprintf(out, "area g %s\n", G(toPoly(q)))
-				fmt.Fprintf(out, "mcent g %s\n", G(geom.MultiPolygon{toPoly(q)}))
+				fmt.Fprintf(out, "area g%s %s\n", lay(r), G(toPoly(q)))
+				fmt.Fprintf(out, "cent g%s %s\n", lay(r), G(toPoly(q)))
+				fmt.Fprintf(out, "marea g%s %s\n", lay(r), G(geom.MultiPolygon{toPoly(q)}))
+				fmt.Fprintf(out, "mcent g%s %s\n", lay(r), G(geom.MultiPolygon{toPoly(q)}))
 			}
 		}
 		// float images of the same base (validity is affine invariant)
 		m := randAffine(r)
 		orbit(r, mapRings(m, base), 5+len(base), func(q []ring, ss []spell) { emitPoly("f", q, ss) })
+		// far magnitudes: areas where the result is still representable (2^±400, 2^±500), centroids
+		// where the cubic moment sums are (2^±300)
+		if i%4 == 1 {
+			e := []int{-500, -400, 400, 500}[r.Intn(4)]
+			q, _ := randSpells(scaleRings(base, e), r.Bool(), false)
+			fmt.Fprintf(out, "area g%s %s\nmarea g%s %s\n", lay(r), G(toPoly(q)), lay(r), G(geom.MultiPolygon{toPoly(q)}))
+			e = []int{-300, 300}[r.Intn(2)]
+			q, _ = randSpells(scaleRings(base, e), true, true)
+			fmt.Fprintf(out, "cent g%s %s\nmcent g%s %s\n", lay(r), G(toPoly(q)), lay(r), G(geom.MultiPolygon{toPoly(q)}))
+		}
 		// the same base at dyadic scales (absolute thresholds must not exist): three scales per base,
 		// one closed and one free spelling each; still tag g (exact on the scaled grid)
 		for k := 0; k < 3; k++ {
@@ -692,6 +708,24 @@ func gen(seed uint64, tier string) {
 		if grid {
 			tag = "g"
 		}
+		xs := 0 // extreme dyadic scale for every 5th grid case: squares of the coordinates leave the float range
+		if grid && i%10 == 4 {
+			xs = []int{-900, -600, -520, -511, 511, 520, 600, 900}[r.Intn(8)]
+			f := math.Ldexp(1, xs)
+			sc := func(l geom.LineString) {
+				for j := range l {
+					l[j] = geom.Point{X: l[j].X * f, Y: l[j].Y * f}
+				}
+			}
+			switch t := g.(type) {
+			case geom.LineString:
+				sc(t)
+			case geom.MultiLineString:
+				for _, l := range t {
+					sc(l)
+				}
+			}
+		}
 		fmt.Fprintf(out, "len %s%s %s\n", tag, lay(r), G(g))
 		// query points: random; a vertex; a point whose projection is an endpoint; a point on a segment;
 		// beyond each end of the first segment along its direction
@@ -703,6 +737,10 @@ func gen(seed uint64, tier string) {
 				geom.Point{X: b.X - (b.Y - a.Y), Y: b.Y + (b.X - a.X)}, // projects exactly onto b
 				geom.Point{X: (a.X + b.X) / 2, Y: (a.Y + b.Y) / 2},
 				geom.Point{X: 2*b.X - a.X, Y: 2*b.Y - a.Y}, geom.Point{X: 2*a.X - b.X, Y: 2*a.Y - b.Y})
+			if xs != 0 {
+				f := math.Ldexp(1, xs)
+				qs[0] = geom.Point{X: qs[0].X * f, Y: qs[0].Y * f}
+			}
 		} else {
 			t := r.Float()*1.6 - 0.3
 			off := (r.Float() - 0.5) * 2
@@ -722,6 +760,11 @@ func gen(seed uint64, tier string) {
 		}
 		rad := math.Pow(10, float64(r.Range(-3, 4))) * (0.1 + r.Float())
 		c := geom.Point{X: (r.Float() - 0.5) * rad * float64(r.Range(0, 50)), Y: (r.Float() - 0.5) * rad * float64(r.Range(0, 50))}
+		if i%12 == 5 { // far magnitudes
+			f := math.Ldexp(1, []int{-900, -600, -511, 511, 600, 900}[r.Intn(6)])
+			rad = f * float64(r.Range(1, 9))
+			c = geom.Point{X: f * float64(r.Range(-20, 20)), Y: f * float64(r.Range(-20, 20))}
+		}
 		if r.Intn(25) == 0 {
 			n = r.Range(-1, 2)
 		}
